@@ -6,6 +6,7 @@ import (
 	"os"
 	"path/filepath"
 	"regexp"
+	"sort"
 	"strings"
 
 	"github.com/bmatcuk/doublestar/v4"
@@ -100,7 +101,14 @@ func ParseConfig(b []byte) (*Config, error) {
 		msg := strings.ReplaceAll(err.Error(), "\n", " ")
 		return nil, errors.New(msg)
 	}
+	// Check the patterns in fixed order so that the same pattern is reported on every run when two or
+	// more patterns are invalid
+	pats := make([]string, 0, len(c.Paths))
 	for pat := range c.Paths {
+		pats = append(pats, pat)
+	}
+	sort.Strings(pats)
+	for _, pat := range pats {
 		if !doublestar.ValidatePattern(pat) {
 			return nil, fmt.Errorf("invalid glob pattern %q in \"paths\"", pat)
 		}
